@@ -289,6 +289,16 @@ fn dict_int5(v: i32) -> Vec<u8> {
 fn dict_int(v: i32) -> Vec<u8> {
     if (-107..=107).contains(&v) {
         vec![(v + 139) as u8]
+    } else if (108..=1131).contains(&v) {
+        let w = v - 108;
+        vec![(w >> 8) as u8 + 247, (w & 0xFF) as u8]
+    } else if (-1131..=-108).contains(&v) {
+        let w = -v - 108;
+        vec![(w >> 8) as u8 + 251, (w & 0xFF) as u8]
+    } else if (-32768..=32767).contains(&v) {
+        let mut o = vec![28];
+        o.extend_from_slice(&(v as i16).to_be_bytes());
+        o
     } else {
         dict_int5(v)
     }
@@ -297,13 +307,22 @@ fn dict_int(v: i32) -> Vec<u8> {
 /// DICT real number from its decimal text (digits, '.', '-')
 fn dict_real(text: &str) -> Vec<u8> {
     let mut nibbles: Vec<u8> = vec![];
-    for ch in text.chars() {
+    let chars: Vec<char> = text.chars().collect();
+    let mut i = 0;
+    while i < chars.len() {
+        let ch = chars[i];
         nibbles.push(match ch {
             '0'..='9' => ch as u8 - b'0',
             '.' => 0xA,
+            'E' if chars.get(i + 1) == Some(&'-') => {
+                i += 1;
+                0xC
+            }
+            'E' => 0xB,
             '-' => 0xE,
             _ => panic!("bad real"),
         });
+        i += 1;
     }
     nibbles.push(0xF);
     if nibbles.len() % 2 == 1 {
@@ -340,6 +359,10 @@ pub struct PrivateSpec {
     pub std_vw: Option<i32>,
     pub force_bold: Option<i32>,
     pub language_group: Option<i32>,
+    /// raw DICT bytes appended (StemSnapH/V, ExpansionFactor ...)
+    pub extra: Vec<u8>,
+    /// (defaultWidthX, nominalWidthX)
+    pub widths: Option<(i32, i32)>,
 }
 
 fn base_spec() -> PrivateSpec {
@@ -356,6 +379,8 @@ fn base_spec() -> PrivateSpec {
         std_vw: Some(80),
         force_bold: None,
         language_group: None,
+        extra: vec![],
+        widths: None,
     }
 }
 
@@ -413,6 +438,55 @@ pub fn private_specs() -> Vec<PrivateSpec> {
         s.blue_values = Some(vec![-12, 0, 100, 105, 200, 205, 300, 305, 400, 405, 500, 512, 700, 712])
     });
     add("no OtherBlues", &|s| s.other_blues = None);
+    // Private DICT extras
+    add("StemSnapH StemSnapV", &|s| {
+        let mut e = delta_array(&[50, 60, 100]);
+        e.extend_from_slice(&[12, 12]);
+        e.extend(delta_array(&[80, 90]));
+        e.extend_from_slice(&[12, 13]);
+        s.extra = e;
+    });
+    add("ExpansionFactor 0.5", &|s| {
+        let mut e = dict_real("0.5");
+        e.extend_from_slice(&[12, 18]);
+        s.extra = e;
+    });
+    add("OtherBlues 10 values", &|s| {
+        s.other_blues = Some(vec![-417, -405, -367, -355, -317, -305, -267, -255, -217, -205]);
+        s.blue_values = Some(vec![-12, 0, 100, 105, 200, 205, 300, 305, 400, 405, 500, 512, 700, 712]);
+    });
+    // DICT real number syntax (exponents, leading dot) and integer operand encodings
+    add("BlueScale 39625E-6", &|s| s.blue_scale = Some("39625E-6"));
+    add("BlueScale .0625", &|s| s.blue_scale = Some(".0625"));
+    add("BlueScale 0.00625E1", &|s| s.blue_scale = Some("0.00625E1"));
+    add("blues at DICT integer encoding boundaries", &|s| {
+        s.blue_values = Some(vec![-108, 0, 500, 607, 1739, 1740]);
+        s.other_blues = Some(vec![-1240, -1239]);
+        s.family_blues = Some(vec![-108, 0, 500, 608, 1739, 1740]);
+    });
+    if ENABLE_FRACTIONAL_PRIVATE {
+        add("BlueShift 7.5", &|s| {
+            let mut e = dict_real("7.5");
+            e.extend_from_slice(&[12, 10]);
+            s.extra = e;
+        });
+        add("BlueFuzz 1.5", &|s| {
+            let mut e = dict_real("1.5");
+            e.extend_from_slice(&[12, 11]);
+            s.extra = e;
+        });
+        add("fractional BlueValues", &|s| {
+            s.blue_values = None;
+            // -12.5 0 500.5 512.5 700 712.75 as deltas
+            let mut e = vec![];
+            for t in ["-12.5", "12.5", "500.5", "12", "187.5", "12.75"] {
+                e.extend(dict_real(t));
+            }
+            e.push(6);
+            s.extra = e;
+        });
+    }
+    add("inverted zone", &|s| s.blue_values = Some(vec![-12, 0, 512, 500, 700, 712]));
     v
 }
 
@@ -444,9 +518,20 @@ fn private_dict(s: &PrivateSpec) -> Vec<u8> {
     int(s.std_vw, &[11], &mut o);
     int(s.force_bold, &[12, 14], &mut o);
     int(s.language_group, &[12, 17], &mut o);
-    // defaultWidthX 600 (charstrings carry no width)
-    o.extend(dict_int(600));
-    o.push(20);
+    o.extend_from_slice(&s.extra);
+    match s.widths {
+        None => {
+            // defaultWidthX 600 (charstrings carry no width)
+            o.extend(dict_int(600));
+            o.push(20);
+        }
+        Some((d, n)) => {
+            o.extend(dict_int(d));
+            o.push(20);
+            o.extend(dict_int(n));
+            o.push(21);
+        }
+    }
     o
 }
 
@@ -506,14 +591,17 @@ pub fn cff_table(spec: &PrivateSpec, charstrings: &[Vec<u8>]) -> Vec<u8> {
 }
 
 pub fn build_font(spec: &PrivateSpec, charstrings: &[Vec<u8>]) -> Vec<u8> {
-    let n = charstrings.len();
+    sfnt(1000, charstrings.len(), cff_table(spec, charstrings))
+}
+
+fn sfnt(upem: u16, n: usize, cff: Vec<u8>) -> Vec<u8> {
     let mut head = vec![];
     head.extend_from_slice(&0x0001_0000u32.to_be_bytes());
     head.extend_from_slice(&0x0001_0000u32.to_be_bytes());
     head.extend_from_slice(&0u32.to_be_bytes());
     head.extend_from_slice(&0x5F0F_3CF5u32.to_be_bytes());
     head.extend_from_slice(&0x0003u16.to_be_bytes());
-    head.extend_from_slice(&1000u16.to_be_bytes());
+    head.extend_from_slice(&upem.to_be_bytes());
     head.extend_from_slice(&[0; 16]);
     for v in [-100i16, -300, 1100, 1100] {
         head.extend_from_slice(&v.to_be_bytes());
@@ -542,7 +630,7 @@ pub fn build_font(spec: &PrivateSpec, charstrings: &[Vec<u8>]) -> Vec<u8> {
     fb.add_raw(Tag::new(b"hhea"), hhea);
     fb.add_raw(Tag::new(b"maxp"), maxp);
     fb.add_raw(Tag::new(b"hmtx"), hmtx);
-    fb.add_raw(Tag::new(b"CFF "), cff_table(spec, charstrings));
+    fb.add_raw(Tag::new(b"CFF "), cff);
     let mut bytes = fb.build();
     // FontBuilder always writes the TrueType sfnt version; FreeType selects its CFF driver by the
     // 'OTTO' tag (skrifa does not care). Checksums are not verified by either engine.
@@ -556,10 +644,836 @@ pub fn describe() -> String {
     for (c, _) in &cs {
         *counts.entry(c.clone()).or_default() += 1;
     }
+    let extra: Vec<String> = extra_fonts()
+        .iter()
+        .map(|f| {
+            let mut c: std::collections::BTreeMap<&str, usize> = Default::default();
+            for k in &f.classes {
+                *c.entry(k.as_str()).or_default() += 1;
+            }
+            format!("{} ({} glyphs: {:?})", f.name, f.classes.len(), c)
+        })
+        .collect();
     format!(
-        "one font per Private DICT variant {:?}; {} charstrings per font by class: {:?}",
+        "one font per Private DICT variant {:?}; {} charstrings per font by class: {:?}; extra fonts: {:?}",
         private_specs().iter().map(|s| s.name).collect::<Vec<_>>(),
         cs.len(),
-        counts
+        counts,
+        extra
     )
+}
+
+// ---- extended families: operators, number encodings, widths, masks, subroutines, CID, unitsPerEm -------
+
+const HMOVETO: &[u8] = &[22];
+const VMOVETO: &[u8] = &[4];
+const VSTEMHM: &[u8] = &[23];
+const HINTMASK: &[u8] = &[19];
+const CNTRMASK: &[u8] = &[20];
+const CALLSUBR: &[u8] = &[10];
+const CALLGSUBR: &[u8] = &[29];
+const RETURN: &[u8] = &[11];
+
+/// Subroutine nesting depth 11 exceeds the Type 2 limit of 10 (FreeType allows 16): not a valid font.
+const ENABLE_NEST_11: bool = false;
+/// endchar with 4 operands = implied seac (deprecated but valid): charstring.rs has a TODO, skrifa draws nothing
+const ENABLE_SEAC: bool = true;
+/// Disagreement on the unchanged repository (see the comment at the use site)
+const ENABLE_FIRST_ZONE_INVERTED: bool = true;
+/// Top DICT / Font DICT FontMatrix (skrifa's cff/mod.rs does not read FontMatrix)
+const ENABLE_FONT_MATRIX: bool = true;
+/// Real (fractional) values for BlueShift / BlueFuzz / BlueValues in the Private DICT
+const ENABLE_FRACTIONAL_PRIVATE: bool = true;
+/// Valid input on which skrifa and FreeType disagree: skrifa's HintMap holds 96 edges (hint.rs `MAX_HINTS`),
+/// FreeType's 192 (`CF2_MAX_HINT_EDGES`), so the 49th and later simultaneously active stems are dropped.
+const ENABLE_OVER_48_ACTIVE_STEMS: bool = true;
+
+/// charstring byte builder
+struct B(Vec<u8>);
+impl B {
+    fn new() -> Self {
+        B(vec![])
+    }
+    fn n(mut self, v: &[i32]) -> Self {
+        for x in v {
+            self.0.extend(num(*x));
+        }
+        self
+    }
+    fn n28(mut self, v: i16) -> Self {
+        self.0.push(28);
+        self.0.extend_from_slice(&v.to_be_bytes());
+        self
+    }
+    /// 16.16 operand (opcode 255)
+    fn fx(mut self, bits: i32) -> Self {
+        self.0.push(255);
+        self.0.extend_from_slice(&bits.to_be_bytes());
+        self
+    }
+    fn op(mut self, o: &[u8]) -> Self {
+        self.0.extend_from_slice(o);
+        self
+    }
+    /// two more relative segments and endchar: a wrong end point shifts them
+    fn tail(self) -> Vec<u8> {
+        self.n(&[37, 23]).op(RLINETO).n(&[-19, 45]).op(RLINETO).op(ENDCHAR).0
+    }
+    /// a 300 x h bar drawn with one alternating hlineto
+    fn bar(self, h: i32) -> Self {
+        self.n(&[300, h, -300]).op(HLINETO)
+    }
+}
+
+fn pre() -> B {
+    B::new().n(&[0, 50]).op(HSTEM).n(&[100, 80]).op(VSTEM).n(&[100, 0]).op(RMOVETO)
+}
+
+const SEQ_A: [i32; 18] = [40, 25, 33, -17, 52, 21, 28, 36, -14, 47, 19, 31, 44, 23, -11, 39, 26, 34];
+const SEQ_B: [i32; 18] = [-30, 45, 0, 27, -41, -16, 38, 0, 22, -35, 29, -12, 18, -26, 43, 0, -24, 32];
+
+fn ones_mask(total: usize, pad_ones: bool) -> Vec<u8> {
+    let nb = total.div_ceil(8);
+    let mut m = vec![0u8; nb];
+    for i in 0..(if pad_ones { nb * 8 } else { total }) {
+        m[i / 8] |= 0x80 >> (i % 8);
+    }
+    m
+}
+
+/// Glyph classes exercising the charstring interpreter itself (independent of most Private DICT values)
+pub fn ops_charstrings() -> Vec<(String, Vec<u8>)> {
+    let mut out: Vec<(String, Vec<u8>)> = vec![("empty".into(), ENDCHAR.to_vec())];
+    // 1 path operators
+    let shapes: [(&str, &[u8], &[usize]); 10] = [
+        ("rlineto multi", RLINETO, &[2, 4, 6, 8]),
+        ("hlineto alternating", HLINETO, &[1, 2, 3, 4, 5]),
+        ("vlineto alternating", VLINETO, &[1, 2, 3, 4, 5]),
+        ("rrcurveto multi", RRCURVETO, &[6, 12, 18]),
+        ("hhcurveto", &[27], &[4, 5, 8, 9]),
+        ("vvcurveto", &[26], &[4, 5, 8, 9]),
+        ("hvcurveto", &[31], &[4, 5, 8, 9, 12, 13]),
+        ("vhcurveto", &[30], &[4, 5, 8, 9, 12, 13]),
+        ("rcurveline", &[24], &[8, 14]),
+        ("rlinecurve", &[25], &[8, 10, 12]),
+    ];
+    for seq in [SEQ_A, SEQ_B] {
+        for (name, op, counts) in shapes {
+            for n in counts {
+                out.push((name.to_string(), pre().n(&seq[..*n]).op(op).tail()));
+            }
+        }
+    }
+    for a in [-50, 0, 1, 100] {
+        for b in [-50, 0, 1, 120] {
+            let c = B::new()
+                .n(&[0, 50])
+                .op(HSTEM)
+                .n(&[100, 80])
+                .op(VSTEM)
+                .n(&[a + 100])
+                .op(HMOVETO)
+                .bar(50)
+                .n(&[b])
+                .op(VMOVETO)
+                .n(&[200, 10, 0, 50])
+                .op(RLINETO)
+                .n(&[a])
+                .op(HMOVETO)
+                .n(&[b + 7])
+                .op(VMOVETO)
+                .n(&[60, 5])
+                .op(RLINETO)
+                .tail();
+            out.push(("hmoveto vmoveto".into(), c));
+        }
+    }
+    for x in [-100, -50, -1] {
+        let c = B::new().n(&[-20, 20]).op(HSTEM).n(&[x, 80]).op(VSTEM).n(&[x, -20]).op(RMOVETO).n(&[80, 400, -80]).op(HLINETO).tail();
+        out.push(("stems at negative coordinates".into(), c));
+    }
+    // degenerate segments (skrifa's NopFilteringSink / FreeType's glyph builder drop them)
+    let degenerate: Vec<B> = vec![
+        // moveto directly followed by moveto
+        pre().n(&[50, 50]).op(RMOVETO).bar(50),
+        // zero-length line right after the moveto
+        pre().n(&[0, 0]).op(RLINETO).bar(50),
+        // zero-length line mid-path
+        pre().n(&[300]).op(HLINETO).n(&[0, 0]).op(RLINETO).n(&[50, -300]).op(VLINETO),
+        pre().n(&[300, 0, 50, 0]).op(HLINETO),
+        // contour explicitly returning to its start
+        pre().n(&[300, 50, -300, -50]).op(HLINETO),
+        // ... and continuing from there
+        pre().n(&[300, 50, -300, -50, 100]).op(HLINETO),
+        // line back to the start point right away
+        pre().n(&[300, 0, -300, 0]).op(RLINETO).bar(50),
+        // zero-length curve first / mid-path / back to start
+        pre().n(&[0, 0, 0, 0, 0, 0]).op(RRCURVETO).bar(50),
+        pre().n(&[300]).op(HLINETO).n(&[0, 0, 0, 0, 0, 0]).op(RRCURVETO).n(&[50, -300]).op(VLINETO),
+        pre().n(&[100, 0, 100, 50, 100, 0, -100, 20, -100, -20, -100, -50]).op(RRCURVETO),
+        // second contour that is only a moveto plus zero-length line, then a third real contour
+        pre().bar(50).n(&[10, 100]).op(RMOVETO).n(&[0, 0]).op(RLINETO).n(&[10, 100]).op(RMOVETO).bar(30),
+        // second contour starting where the first started
+        pre().bar(50).n(&[0, -50]).op(RMOVETO).bar(20),
+        // sub-unit line (1/65536) and half-unit line
+        pre().fx(1).fx(0).op(RLINETO).bar(50),
+        pre().fx(0x8000).fx(0).op(RLINETO).bar(50),
+        pre().n(&[300]).op(HLINETO).fx(0).fx(0x7FFF).op(RLINETO).n(&[50, -300]).op(VLINETO),
+    ];
+    for b in degenerate {
+        out.push(("degenerate segments".into(), b.tail()));
+    }
+    // the same without the two trailing segments: contour ends on the degenerate part
+    out.push(("degenerate segments".into(), pre().n(&[300, 50, -300, -50]).op(HLINETO).op(ENDCHAR).0));
+    out.push(("degenerate segments".into(), pre().bar(50).n(&[10, 100]).op(RMOVETO).op(ENDCHAR).0));
+    out.push(("degenerate segments".into(), pre().op(ENDCHAR).0));
+    out.push(("degenerate segments".into(), pre().n(&[0, 0]).op(RLINETO).op(ENDCHAR).0));
+    // 2 number encodings
+    for v in [-1132, -1131, -108, -107, 107, 108, 1131, 1132] {
+        out.push((
+            "number encoding boundary in coordinates".into(),
+            pre().n(&[v, 50, 30, v]).op(RLINETO).tail(),
+        ));
+        let c = B::new().n(&[v, 20]).op(HSTEM).n(&[100, v.abs()]).op(VSTEM).n(&[100, v]).op(RMOVETO).bar(20).tail();
+        out.push(("number encoding boundary in stems".into(), c));
+    }
+    for v in [-107i16, 0, 100, 108, 1131, 1132, -1200] {
+        let c = B::new()
+            .n28(0)
+            .n28(50)
+            .op(HSTEM)
+            .fx(100 << 16)
+            .fx(80 << 16)
+            .op(VSTEM)
+            .n28(100)
+            .fx(0)
+            .op(RMOVETO)
+            .n28(v)
+            .fx(50 << 16)
+            .fx((v as i32) << 16)
+            .n28(30)
+            .op(RLINETO)
+            .tail();
+        out.push(("non-minimal number encoding".into(), c));
+    }
+    for fr in [0x8000, 0x4000, -0x8000, 1, 0xFFFF, -1, 0x7FFF, 0x8001] {
+        for base in [0, 500] {
+            let c = B::new()
+                .n(&[base, 50])
+                .op(HSTEM)
+                .fx((100 << 16) + fr)
+                .fx((base << 16) + fr)
+                .op(RMOVETO)
+                .fx((300 << 16) + fr)
+                .fx(fr)
+                .fx(-fr)
+                .fx((50 << 16) - fr)
+                .op(RLINETO)
+                .fx((-300 << 16) + fr)
+                .op(HLINETO)
+                .tail();
+            out.push(("16.16 operands in coordinates".into(), c));
+            let c = B::new()
+                .fx((base << 16) + fr)
+                .fx((50 << 16) + fr)
+                .op(HSTEM)
+                .fx((100 << 16) + fr)
+                .fx((80 << 16) - fr)
+                .op(VSTEM)
+                .n(&[100, base])
+                .op(RMOVETO)
+                .bar(50)
+                .tail();
+            out.push(("16.16 operands in stems".into(), c));
+        }
+    }
+    // 3 width operand before every possible first operator
+    for w in [None, Some(-50), Some(0), Some(123)] {
+        let wb = || match w {
+            None => B::new(),
+            Some(w) => B::new().n(&[w]),
+        };
+        let mut push = |name: &str, c: Vec<u8>| out.push((format!("width before {name}"), c));
+        push("hstem", wb().n(&[0, 50]).op(HSTEM).n(&[100, 80]).op(VSTEM).n(&[100, 0]).op(RMOVETO).bar(50).tail());
+        push("hstem", wb().n(&[0, 50, 100, 50]).op(HSTEM).n(&[100, 0]).op(RMOVETO).bar(50).tail());
+        push("vstem", wb().n(&[100, 80]).op(VSTEM).n(&[100, 0]).op(RMOVETO).bar(50).tail());
+        push("vstem", wb().n(&[100, 80, 140, 80]).op(VSTEM).n(&[100, 0]).op(RMOVETO).bar(50).tail());
+        push(
+            "hstemhm",
+            wb().n(&[0, 50]).op(HSTEMHM).n(&[100, 80]).op(VSTEMHM).op(HINTMASK).op(&[0xC0]).n(&[100, 0]).op(RMOVETO).bar(50).tail(),
+        );
+        push("vstemhm", wb().n(&[100, 80]).op(VSTEMHM).op(HINTMASK).op(&[0x80]).n(&[100, 0]).op(RMOVETO).bar(50).tail());
+        push("hintmask", wb().n(&[100, 80]).op(HINTMASK).op(&[0x80]).n(&[100, 0]).op(RMOVETO).bar(50).tail());
+        push(
+            "hintmask",
+            wb().n(&[100, 80, 140, 80]).op(HINTMASK).op(&[0x40]).n(&[100, 0]).op(RMOVETO).bar(50).tail(),
+        );
+        push(
+            "cntrmask",
+            wb().n(&[100, 80]).op(CNTRMASK).op(&[0x80]).op(HINTMASK).op(&[0x80]).n(&[100, 0]).op(RMOVETO).bar(50).tail(),
+        );
+        push("rmoveto", wb().n(&[100, 10]).op(RMOVETO).bar(50).tail());
+        push("hmoveto", wb().n(&[100]).op(HMOVETO).bar(50).tail());
+        push("vmoveto", wb().n(&[100]).op(VMOVETO).bar(50).tail());
+        push("endchar", wb().op(ENDCHAR).0);
+    }
+    // 10 implied seac: endchar with adx ady bchar achar (StandardEncoding codes 65 'A' = SID 34 = glyph 34,
+    // 66 'B' = glyph 35 with this font's charset)
+    if ENABLE_SEAC {
+        for w in [None, Some(55)] {
+            let b = match w {
+                None => B::new(),
+                Some(w) => B::new().n(&[w]),
+            };
+            out.push(("endchar with 4 operands (implied seac)".into(), b.n(&[150, 40, 65, 66]).op(ENDCHAR).0));
+        }
+    }
+    // 4 hint masks: total stem counts at the mask byte-count boundaries
+    for total in [7usize, 8, 9, 15, 16, 17] {
+        for mode in ["vstemhm", "implicit vstems before hintmask", "implicit vstems before cntrmask"] {
+            for variant in 0..2 {
+                let nh = total / 2;
+                let nv = total - nh;
+                let mut hargs = vec![0, 20];
+                for _ in 1..nh {
+                    hargs.extend([20, 20]);
+                }
+                let mut vargs = vec![100, 20];
+                for _ in 1..nv {
+                    vargs.extend([20, 20]);
+                }
+                let nb = total.div_ceil(8);
+                let alt = |b: u8| vec![b; nb];
+                let mut first = vec![0u8; nb];
+                first[0] = 0x80;
+                let mut lastbit = vec![0u8; nb];
+                lastbit[(total - 1) / 8] = 0x80 >> ((total - 1) % 8);
+                let masks: [Vec<u8>; 3] = if variant == 0 {
+                    [ones_mask(total, false), vec![0u8; nb], alt(0xAA)]
+                } else {
+                    [alt(0x55), ones_mask(total, true), lastbit.clone()]
+                };
+                let mut b = B::new().n(&hargs).op(HSTEMHM);
+                match mode {
+                    "vstemhm" => {
+                        b = b.n(&vargs).op(VSTEMHM);
+                        if variant == 1 {
+                            b = b.op(CNTRMASK).op(&first).op(CNTRMASK).op(&lastbit);
+                        }
+                        b = b.op(HINTMASK).op(&masks[0]);
+                    }
+                    "implicit vstems before hintmask" => {
+                        b = b.n(&vargs).op(HINTMASK).op(&masks[0]);
+                    }
+                    _ => {
+                        b = b.n(&vargs).op(CNTRMASK).op(&ones_mask(total.min(3), false).iter().chain(vec![0u8; nb].iter()).copied().take(nb).collect::<Vec<u8>>());
+                        b = b.op(CNTRMASK).op(&lastbit).op(HINTMASK).op(&masks[0]);
+                    }
+                }
+                b = b.n(&[100, 0]).op(RMOVETO).bar(20);
+                b = b.op(HINTMASK).op(&masks[1]).n(&[0, 20]).op(RMOVETO).bar(20);
+                b = b.op(HINTMASK).op(&masks[2]).n(&[0, 20]).op(RMOVETO).bar(20);
+                b = b.op(HINTMASK).op(&masks[0]).n(&[20, 20, 0, 200, -20, 0]).op(RLINETO);
+                out.push((format!("hint masks ({mode})"), b.tail()));
+            }
+        }
+    }
+    // stem count around the hint limit (96)
+    // (97 stems exceed the Type 2 limit of 96 stem hints: FreeType rejects the hintmask; not a valid font)
+    for total in [47usize, 48, 49, 50, 95, 96] {
+        for variant in 0..2 {
+            // all stems active at once: more than 48 stems = more than 96 hint-map edges
+            let many_active = variant == 0 && total > 48;
+            if many_active && !ENABLE_OVER_48_ACTIVE_STEMS {
+                continue;
+            }
+            let mut b = B::new();
+            let mut done = 0;
+            while done < total {
+                let k = (total - done).min(24);
+                let mut args = vec![done as i32 * 10 - 100, 5];
+                for _ in 1..k {
+                    args.extend([5, 5]);
+                }
+                b = b.n(&args).op(HSTEMHM);
+                done += k;
+            }
+            let mut m = ones_mask(total, false);
+            if variant == 1 {
+                for x in m.iter_mut() {
+                    *x &= 0x11;
+                }
+                let l = m.len() - 1;
+                m[l] = ones_mask(total, false)[l];
+            }
+            b = b.op(HINTMASK).op(&m).n(&[100, -100]).op(RMOVETO).bar(5).n(&[0, 935]).op(RMOVETO).bar(25);
+            let class = if many_active { "more than 48 simultaneously active stems" } else { "stem count at hint limit" };
+            out.push((class.into(), b.tail()));
+        }
+    }
+    out
+}
+
+fn index_os(items: &[Vec<u8>], off_size: u8) -> Vec<u8> {
+    let mut o = vec![];
+    o.extend_from_slice(&(items.len() as u16).to_be_bytes());
+    if items.is_empty() {
+        return o;
+    }
+    let total: usize = 1 + items.iter().map(|i| i.len()).sum::<usize>();
+    assert!(off_size == 4 || total < (1usize << (8 * off_size as usize)), "offSize too small");
+    o.push(off_size);
+    let mut off = 1u32;
+    let put = |o: &mut Vec<u8>, v: u32| o.extend_from_slice(&v.to_be_bytes()[4 - off_size as usize..]);
+    put(&mut o, off);
+    for it in items {
+        off += it.len() as u32;
+        put(&mut o, off);
+    }
+    for it in items {
+        o.extend_from_slice(it);
+    }
+    o
+}
+
+pub struct FdSpec {
+    /// Private DICT without the Subrs entry
+    pub private: Vec<u8>,
+    pub subrs: Vec<Vec<u8>>,
+    pub subrs_off_size: u8,
+}
+
+pub enum FdSelect {
+    Format0(Vec<u8>),
+    /// (first glyph, fd) ranges; the sentinel is the glyph count
+    Format3(Vec<(u16, u8)>),
+}
+
+pub struct CffSpec {
+    pub fds: Vec<FdSpec>,
+    pub gsubrs: Vec<Vec<u8>>,
+    pub gsubrs_off_size: u8,
+    pub charstrings: Vec<Vec<u8>>,
+    /// CID-keyed when Some
+    pub cid: Option<FdSelect>,
+    /// raw Top DICT entries (FontMatrix)
+    pub top_extra: Vec<u8>,
+    /// raw entries for every Font DICT (FontMatrix)
+    pub fd_extra: Vec<u8>,
+}
+
+fn cff_table_ex(spec: &CffSpec) -> Vec<u8> {
+    let n = spec.charstrings.len();
+    let header = vec![1u8, 0, 4, 4];
+    let name = index(&[b"SynthCFF".to_vec()]);
+    let strings = if spec.cid.is_some() { index(&[b"Adobe".to_vec(), b"Identity".to_vec()]) } else { index(&[]) };
+    let gsubrs = index_os(&spec.gsubrs, spec.gsubrs_off_size);
+    let mut charset = vec![2u8];
+    charset.extend_from_slice(&1u16.to_be_bytes());
+    charset.extend_from_slice(&((n - 2) as u16).to_be_bytes());
+    // private blobs: Private DICT (+ Subrs offset = dict size) immediately followed by the local Subrs INDEX
+    let mut blobs: Vec<(usize, Vec<u8>)> = vec![];
+    for fd in &spec.fds {
+        let mut p = fd.private.clone();
+        if !fd.subrs.is_empty() {
+            let total = p.len() + 6;
+            p.extend(dict_int5(total as i32));
+            p.push(19);
+        }
+        let plen = p.len();
+        if !fd.subrs.is_empty() {
+            p.extend(index_os(&fd.subrs, fd.subrs_off_size));
+        }
+        blobs.push((plen, p));
+    }
+    let fdselect: Vec<u8> = match &spec.cid {
+        None => vec![],
+        Some(FdSelect::Format0(v)) => {
+            assert_eq!(v.len(), n);
+            let mut o = vec![0u8];
+            o.extend_from_slice(v);
+            o
+        }
+        Some(FdSelect::Format3(r)) => {
+            let mut o = vec![3u8];
+            o.extend_from_slice(&(r.len() as u16).to_be_bytes());
+            for (first, fd) in r {
+                o.extend_from_slice(&first.to_be_bytes());
+                o.push(*fd);
+            }
+            o.extend_from_slice(&(n as u16).to_be_bytes());
+            o
+        }
+    };
+    let is_cid = spec.cid.is_some();
+    let top_len = spec.top_extra.len() + if is_cid { 17 + 21 + 6 + 6 + 7 + 7 } else { 21 + 6 + 6 + 11 };
+    let top_index_len = 2 + 1 + 8 + top_len;
+    let nfd = spec.fds.len();
+    let fdarray_len = if is_cid { 2 + 1 + 4 * (nfd + 1) + (11 + spec.fd_extra.len()) * nfd } else { 0 };
+    let charset_off = header.len() + name.len() + top_index_len + strings.len() + gsubrs.len();
+    let fdselect_off = charset_off + charset.len();
+    let fdarray_off = fdselect_off + fdselect.len();
+    let mut private_offs = vec![];
+    let mut off = fdarray_off + fdarray_len;
+    for (_, b) in &blobs {
+        private_offs.push(off);
+        off += b.len();
+    }
+    let charstrings_off = off;
+    let mut top = vec![];
+    if is_cid {
+        top.extend(dict_int5(391));
+        top.extend(dict_int5(392));
+        top.extend(dict_int5(0));
+        top.extend_from_slice(&[12, 30]);
+    }
+    top.extend_from_slice(&spec.top_extra);
+    for v in [-100, -300, 1100, 1100] {
+        top.extend(dict_int5(v));
+    }
+    top.push(5);
+    top.extend(dict_int5(charset_off as i32));
+    top.push(15);
+    top.extend(dict_int5(charstrings_off as i32));
+    top.push(17);
+    let mut fdarray = vec![];
+    if is_cid {
+        top.extend(dict_int5(fdarray_off as i32));
+        top.extend_from_slice(&[12, 36]);
+        top.extend(dict_int5(fdselect_off as i32));
+        top.extend_from_slice(&[12, 37]);
+        let dicts: Vec<Vec<u8>> = (0..nfd)
+            .map(|i| {
+                let mut d = spec.fd_extra.clone();
+                d.extend(dict_int5(blobs[i].0 as i32));
+                d.extend(dict_int5(private_offs[i] as i32));
+                d.push(18);
+                d
+            })
+            .collect();
+        fdarray = index(&dicts);
+        assert_eq!(fdarray.len(), fdarray_len);
+    } else {
+        top.extend(dict_int5(blobs[0].0 as i32));
+        top.extend(dict_int5(private_offs[0] as i32));
+        top.push(18);
+    }
+    assert_eq!(top.len(), top_len);
+    let top_index = index(&[top]);
+    let mut o = [header, name, top_index, strings, gsubrs, charset, fdselect, fdarray].concat();
+    for (_, b) in blobs {
+        o.extend(b);
+    }
+    assert_eq!(o.len(), charstrings_off);
+    o.extend(index(&spec.charstrings));
+    o
+}
+
+pub struct ExtraFont {
+    pub name: String,
+    pub bytes: Vec<u8>,
+    /// one per glyph, without the "CFF " prefix
+    pub classes: Vec<String>,
+    pub in_quick: bool,
+}
+
+fn bias(count: usize) -> i32 {
+    if count < 1240 {
+        107
+    } else if count < 33900 {
+        1131
+    } else {
+        32768
+    }
+}
+
+fn special_indices(count: usize) -> Vec<usize> {
+    let b = bias(count) as usize;
+    let mut v: Vec<usize> = vec![0, 1, b - 1, b, b + 1, count - 2, count - 1];
+    v.retain(|i| *i < count);
+    v.sort();
+    v.dedup();
+    v
+}
+
+/// `count` subroutines, all a bare `return` except the special ones: a distinct line each
+fn bias_subrs(count: usize, sign: i32) -> Vec<Vec<u8>> {
+    let mut v = vec![RETURN.to_vec(); count];
+    for (k, i) in special_indices(count).into_iter().enumerate() {
+        v[i] = B::new().n(&[10 + 3 * k as i32, sign * (20 + k as i32)]).op(RLINETO).op(RETURN).0;
+    }
+    v
+}
+
+fn bias_font(nlocal: usize, nglobal: usize, los: u8, gos: u8) -> ExtraFont {
+    bias_font_ex(nlocal, nglobal, los, gos, 1000, vec![])
+}
+
+fn bias_font_ex(nlocal: usize, nglobal: usize, los: u8, gos: u8, upem: u16, top_extra: Vec<u8>) -> ExtraFont {
+    let mut cs: Vec<(String, Vec<u8>)> = vec![("empty".into(), ENDCHAR.to_vec())];
+    for i in special_indices(nlocal) {
+        cs.push((
+            format!("callsubr at bias boundary ({nlocal} subrs)"),
+            pre().n(&[i as i32 - bias(nlocal)]).op(CALLSUBR).tail(),
+        ));
+    }
+    for i in special_indices(nglobal) {
+        cs.push((
+            format!("callgsubr at bias boundary ({nglobal} subrs)"),
+            pre().n(&[i as i32 - bias(nglobal)]).op(CALLGSUBR).tail(),
+        ));
+    }
+    let spec = CffSpec {
+        fds: vec![FdSpec { private: private_dict(&base_spec()), subrs: bias_subrs(nlocal, 1), subrs_off_size: los }],
+        gsubrs: bias_subrs(nglobal, -1),
+        gsubrs_off_size: gos,
+        charstrings: cs.iter().map(|c| c.1.clone()).collect(),
+        cid: None,
+        top_extra,
+        fd_extra: vec![],
+    };
+    ExtraFont {
+        name: format!("subrs local {nlocal} global {nglobal}"),
+        bytes: sfnt(upem, cs.len(), cff_table_ex(&spec)),
+        classes: cs.into_iter().map(|c| c.0).collect(),
+        in_quick: true,
+    }
+}
+
+fn subr_feature_font() -> ExtraFont {
+    let call = |i: i32| B::new().n(&[i - 107]).op(CALLSUBR);
+    let gcall = |i: i32| B::new().n(&[i - 107]).op(CALLGSUBR);
+    let mut local: Vec<Vec<u8>> = vec![];
+    let mut global: Vec<Vec<u8>> = vec![];
+    local.push(B::new().n(&[10, 20]).op(RLINETO).op(RETURN).0); // 0
+    global.push(B::new().n(&[-10, 20]).op(RLINETO).op(RETURN).0);
+    for j in 1..=10 {
+        local.push(call(j + 1).op(RETURN).0); // 1..=10: chain
+        // the global chain alternates between global and local subroutines
+        global.push(if j % 2 == 0 { gcall(j + 1).op(RETURN).0 } else { call(j + 1).op(RETURN).0 });
+    }
+    local.push(B::new().n(&[15, 25]).op(RLINETO).op(RETURN).0); // 11
+    global.push(B::new().n(&[-15, 25]).op(RLINETO).op(RETURN).0);
+    local.push(B::new().n(&[30, 40]).op(RLINETO).op(ENDCHAR).0); // 12 endchar in subr
+    global.push(call(0).op(RETURN).0); // g12 calls local 0
+    local.push(B::new().n(&[0, 50]).op(HSTEM).n(&[100, 80]).op(VSTEM).op(RETURN).0); // 13 hints (takes width)
+    local.push(B::new().n(&[0, 50]).op(HSTEMHM).n(&[100, 80]).op(HINTMASK).op(&[0xC0]).op(RETURN).0); // 14
+    local.push(B::new().n(&[50, 60]).op(RETURN).0); // 15 leaves operands
+    local.push(B::new().op(RLINETO).op(RETURN).0); // 16 consumes the caller's operands
+    local.push(B::new().n(&[12, 34]).op(RLINETO).0); // 17 no return
+    local.push(gcall(0).op(RETURN).0); // 18 calls global 0
+    local.push(B::new().op(HINTMASK).op(&[0x40]).n(&[5, 5]).op(RLINETO).op(RETURN).0); // 19 switches hints mid-path
+    local.push(vec![]); // 20 empty
+    let p = |b: B| B(pre().0.into_iter().chain(b.0).collect());
+    let mut cs: Vec<(String, Vec<u8>)> = vec![("empty".into(), ENDCHAR.to_vec())];
+    cs.push(("callsubr".into(), p(call(0)).tail()));
+    cs.push(("callsubr".into(), p(call(0)).n(&[1, 2]).op(RLINETO).0.into_iter().chain(call(11).tail()).collect()));
+    cs.push(("callgsubr".into(), p(gcall(0)).tail()));
+    for (depth, j) in [(9, 3), (10, 2), (11, 1)] {
+        if depth == 11 && !ENABLE_NEST_11 {
+            continue;
+        }
+        cs.push((format!("subr nesting depth {depth}"), p(call(j)).tail()));
+        cs.push((format!("subr nesting depth {depth} (mixed global/local)"), p(gcall(j)).tail()));
+    }
+    cs.push(("endchar in subr".into(), p(call(12)).0));
+    for w in [None, Some(77)] {
+        let wb = match w {
+            None => B::new(),
+            Some(w) => B::new().n(&[w]),
+        };
+        cs.push(("hints in subr".into(), wb.n(&[13 - 107]).op(CALLSUBR).n(&[100, 0]).op(RMOVETO).bar(50).tail()));
+    }
+    cs.push(("hintmask in subr".into(), call(14).n(&[100, 0]).op(RMOVETO).bar(50).tail()));
+    cs.push((
+        "hintmask in subr".into(),
+        call(14).n(&[100, 0]).op(RMOVETO).bar(50).n(&[19 - 107]).op(CALLSUBR).tail(),
+    ));
+    cs.push(("operands from subr".into(), p(call(15)).op(RLINETO).tail()));
+    cs.push(("operands to subr".into(), p(B::new().n(&[50, 60, 16 - 107]).op(CALLSUBR)).tail()));
+    cs.push(("subr without return".into(), p(call(17)).tail()));
+    cs.push(("subr calls gsubr".into(), p(call(18)).tail()));
+    cs.push(("empty subr".into(), p(call(20)).tail()));
+    cs.push(("gsubr calls subr".into(), p(gcall(12)).tail()));
+    let spec = CffSpec {
+        fds: vec![FdSpec { private: private_dict(&base_spec()), subrs: local, subrs_off_size: 1 }],
+        gsubrs: global,
+        gsubrs_off_size: 1,
+        charstrings: cs.iter().map(|c| c.1.clone()).collect(),
+        cid: None,
+        top_extra: vec![],
+        fd_extra: vec![],
+    };
+    ExtraFont {
+        name: "subr features".into(),
+        bytes: sfnt(1000, cs.len(), cff_table_ex(&spec)),
+        classes: cs.into_iter().map(|c| c.0).collect(),
+        in_quick: true,
+    }
+}
+
+fn font_matrix(m: [&str; 6]) -> Vec<u8> {
+    let mut o = vec![];
+    for t in m {
+        o.extend(dict_real(t));
+    }
+    o.extend_from_slice(&[12, 7]);
+    o
+}
+
+fn cid_font(format3: bool, upem: u16, matrix: Option<[&str; 6]>, fd_matrix: Option<[&str; 6]>) -> ExtraFont {
+    // three Font DICTs: different blues / StdHW and different local Subrs counts (bias 107, bias 1131, none)
+    let mut s1 = base_spec();
+    s1.blue_values = Some(vec![-20, 0, 480, 500]);
+    s1.std_hw = Some(1);
+    let mut s2 = base_spec();
+    s2.blue_values = None;
+    s2.other_blues = None;
+    s2.language_group = Some(1);
+    let sub = |count: usize, f: i32| -> Vec<Vec<u8>> {
+        (0..count).map(|i| B::new().n(&[10 + 7 * f + (i % 5) as i32, 20 + f]).op(RLINETO).op(RETURN).0).collect()
+    };
+    let counts = [3usize, 1240, 0];
+    let fds = vec![
+        FdSpec { private: private_dict(&base_spec()), subrs: sub(3, 0), subrs_off_size: 1 },
+        FdSpec { private: private_dict(&s1), subrs: sub(1240, 1), subrs_off_size: 2 },
+        FdSpec { private: private_dict(&s2), subrs: vec![], subrs_off_size: 1 },
+    ];
+    // glyph ranges: FD 0: 0..=9, FD 1: 10..=19, FD 2: 20..=27, FD 0: 28..=35, FD 2: 36
+    let ranges: Vec<(u16, u8)> = vec![(0, 0), (10, 1), (20, 2), (28, 0), (36, 2)];
+    let n = 37usize;
+    let fd_of = |g: usize| ranges.iter().rev().find(|r| r.0 as usize <= g).unwrap().1;
+    let mut cs: Vec<(String, Vec<u8>)> = vec![("empty".into(), ENDCHAR.to_vec())];
+    for g in 1..n {
+        let fd = fd_of(g) as usize;
+        let k = g % 4;
+        let c = if k < 2 {
+            let y0 = [499, 500, 512, -12][(g / 2) % 4];
+            let c = B::new().n(&[y0, 50]).op(HSTEM).n(&[100, 80]).op(VSTEM).n(&[100, y0]).op(RMOVETO).bar(50).tail();
+            (format!("CID FD {fd} horizontal stem"), c)
+        } else if counts[fd] > 0 {
+            let idx = if k == 2 { 0 } else { counts[fd] - 1 };
+            (format!("CID FD {fd} callsubr"), pre().n(&[idx as i32 - bias(counts[fd])]).op(CALLSUBR).tail())
+        } else {
+            (format!("CID FD {fd} callgsubr"), pre().n(&[(k as i32 - 2) - 107]).op(CALLGSUBR).tail())
+        };
+        cs.push(c);
+    }
+    let cid = if format3 {
+        FdSelect::Format3(ranges.clone())
+    } else {
+        FdSelect::Format0((0..n).map(|g| fd_of(g)).collect())
+    };
+    let spec = CffSpec {
+        fds,
+        gsubrs: sub(2, 5),
+        gsubrs_off_size: 1,
+        charstrings: cs.iter().map(|c| c.1.clone()).collect(),
+        cid: Some(cid),
+        top_extra: matrix.map(font_matrix).unwrap_or_default(),
+        fd_extra: fd_matrix.map(font_matrix).unwrap_or_default(),
+    };
+    ExtraFont {
+        name: format!(
+            "CID FDSelect format {}{}{}",
+            if format3 { 3 } else { 0 },
+            matrix.map(|m| format!(" FontMatrix {} upem {upem}", m[0])).unwrap_or_default(),
+            fd_matrix.map(|m| format!(" FD FontMatrix {} upem {upem}", m[0])).unwrap_or_default()
+        ),
+        bytes: sfnt(upem, cs.len(), cff_table_ex(&spec)),
+        classes: cs.into_iter().map(|c| c.0).collect(),
+        in_quick: true,
+    }
+}
+
+pub fn extra_fonts() -> Vec<ExtraFont> {
+    let mut out = vec![];
+    // operator / number / width / mask classes under three Private DICTs
+    let ops = ops_charstrings();
+    let programs: Vec<Vec<u8>> = ops.iter().map(|c| c.1.clone()).collect();
+    let classes: Vec<String> = ops.iter().map(|c| c.0.clone()).collect();
+    let mut lg1 = base_spec();
+    lg1.language_group = Some(1);
+    let mut wd = base_spec();
+    wd.widths = Some((450, 300));
+    for (name, spec) in [("ops base", base_spec()), ("ops LanguageGroup 1", lg1), ("ops nominalWidthX 300 defaultWidthX 450", wd)] {
+        out.push(ExtraFont {
+            name: name.into(),
+            bytes: build_font(&spec, &programs),
+            classes: classes.clone(),
+            in_quick: true,
+        });
+    }
+    out.push(subr_feature_font());
+    out.push(bias_font(1239, 1240, 2, 3));
+    out.push(bias_font(1240, 1239, 3, 2));
+    out.push(bias_font(33899, 33900, 2, 4));
+    out.push(bias_font(33900, 33899, 3, 2));
+    out.push(cid_font(false, 1000, None, None));
+    out.push(cid_font(true, 1000, None, None));
+    if ENABLE_FONT_MATRIX {
+        let m = |s: &'static str| [s, "0", "0", s, "0", "0"];
+        out.push(cid_font(true, 2000, Some(m("0.0005")), None));
+        out.push(cid_font(true, 2000, None, Some(m("0.0005"))));
+        out.push(cid_font(false, 2048, Some(m("0.00048828125")), None));
+        out.push(cid_font(false, 1000, Some(m("0.001")), Some(m("1"))));
+        let mut f = bias_font_ex(5, 5, 1, 1, 2000, font_matrix(m("0.0005")));
+        f.name = "FontMatrix 0.0005 upem 2000".into();
+        out.push(f);
+        let mut f = bias_font_ex(5, 5, 1, 1, 1000, font_matrix(m("0.001")));
+        f.name = "FontMatrix 0.001 upem 1000".into();
+        out.push(f);
+    }
+    // unitsPerEm other than 1000 (no FontMatrix: FreeType then takes head.unitsPerEm for an sfnt-wrapped CFF)
+    let base = charstrings();
+    let sel: Vec<(String, Vec<u8>)> = base.iter().enumerate().filter(|(i, _)| *i == 0 || i % 5 == 1).map(|(_, c)| c.clone()).collect();
+    // LanguageGroup 1 em-box hints: two zones, first entirely below ICF_BOTTOM (-120), second entirely above
+    // ICF_TOP (880); each of the four values on either side of its threshold
+    let mut embox = sel.clone();
+    for y0 in [-140, -121, -120, -119, 0, 400, 860, 879, 880, 881] {
+        for h in [20, 50] {
+            let c = B::new().n(&[y0, h]).op(HSTEM).n(&[100, 80]).op(VSTEM).n(&[100, y0]).op(RMOVETO).bar(h).tail();
+            embox.push(("stem at em-box edge".into(), c));
+        }
+    }
+    for (lg, blues) in [
+        (1, [-130, -121, 881, 890]),
+        (1, [-130, -120, 881, 890]),
+        (1, [-120, -121, 881, 890]),
+        (1, [-130, -121, 880, 890]),
+        (1, [-130, -121, 881, 880]),
+        (0, [-130, -121, 881, 890]),
+    ] {
+        // first pair bottom > top: FreeType rejects the pair and keeps treating the NEXT pair as a top zone
+        // (psblues.c tests the BlueValues index `i == 0`); skrifa's hint.rs build_zones tests the index among
+        // the accepted zones (`zone_ix == 0`) and makes the next pair the bottom zone
+        let first_inverted = blues[0] > blues[1];
+        if first_inverted && !ENABLE_FIRST_ZONE_INVERTED {
+            continue;
+        }
+        let mut sp = base_spec();
+        sp.language_group = Some(lg);
+        sp.blue_values = Some(blues.to_vec());
+        sp.other_blues = None;
+        let programs: Vec<Vec<u8>> = embox.iter().map(|c| c.1.clone()).collect();
+        out.push(ExtraFont {
+            name: format!("em box LanguageGroup {lg} BlueValues {blues:?}"),
+            bytes: build_font(&sp, &programs),
+            classes: embox
+                .iter()
+                .map(|c| if first_inverted { format!("{} (first BlueValues pair inverted)", c.0) } else { c.0.clone() })
+                .collect(),
+            in_quick: true,
+        });
+    }
+    for upem in [2048u16, 250] {
+        let programs: Vec<Vec<u8>> = sel.iter().map(|c| c.1.clone()).collect();
+        out.push(ExtraFont {
+            name: format!("unitsPerEm {upem}"),
+            bytes: sfnt(upem, programs.len(), cff_table(&base_spec(), &programs)),
+            classes: sel.iter().map(|c| c.0.clone()).collect(),
+            in_quick: true,
+        });
+    }
+    out
 }
